@@ -8,12 +8,20 @@
    its dependencies in order, required or optional) and `fails`.
    Variant "prefix" = the code before the fix: the callstack is not popped when a
    factory fails, and Block() folds a default INSTANCE over an explicit FACTORY.
+   InjectTo(struct) is the code's loop over the tagged fields: one Get per field in
+   field order; a required field that cannot be resolved aborts the call with an error
+   (the fields before it stay set), an optional one is skipped; only when all fields
+   are through do the extra injectors run (the replay attaches a multi-injector holding
+   one map injector with one required key, once with and once without that key: the
+   call then succeeds / fails after the fields have been set).  The first field's name
+   is fixed (the dependency graphs are enumerated symmetrically).
    `hist` (hidden from the fingerprint by VIEW) is the sequence of API calls with
    their results: every completed call prints the history as a test for the real
    Provider. *)
 EXTENDS Naturals, Sequences, FiniteSets, TLC, Json
-CONSTANTS Names, Variant, MaxDefs, MaxGets, Emit
+CONSTANTS Names, Variant, MaxDefs, MaxGets, Emit, InjLen
 VARIABLES deps, fails,            \* the (fixed) factory behaviour: name -> seq of [t, opt]; set of failing factories
+          inj,                    \* struct injection in progress: [on, fs (fields), i (current field), got (results so far)]
           DI, DF, F, inst,        \* the four tables (inst: name -> tag)
           blocked, callstack,
           frames,                 \* resolution stack: seq of [n, i]
@@ -21,22 +29,24 @@ VARIABLES deps, fails,            \* the (fixed) factory behaviour: name -> seq 
           calls, ndefs, ngets, top, out,   \* bookkeeping / observation
           gSet, gF, gDI, gDF,     \* ghost: definitions that were accepted
           built, hist
-vars == <<deps, fails, DI, DF, F, inst, blocked, callstack, frames, ret, calls, ndefs, ngets, top, out, gSet, gF, gDI, gDF, built, hist>>
-View == <<deps, fails, DI, DF, F, inst, blocked, callstack, frames, ret, calls, ndefs, ngets, top, out, gSet, gF, gDI, gDF, built>>
+vars == <<deps, fails, inj, DI, DF, F, inst, blocked, callstack, frames, ret, calls, ndefs, ngets, top, out, gSet, gF, gDI, gDF, built, hist>>
+View == <<deps, fails, inj, DI, DF, F, inst, blocked, callstack, frames, ret, calls, ndefs, ngets, top, out, gSet, gF, gDI, gDF, built>>
 DepsJson == { [n |-> n, d |-> deps[n]] : n \in Names }
 EmitHist(h) == Emit => PrintT(ToJson([k |-> "di", deps |-> DepsJson, fails |-> fails, hist |-> h]))
 Edge == [t : Names, opt : BOOLEAN]
 DepChoices == {<<>>} \cup { <<e>> : e \in Edge }
-Init == /\ deps \in [Names -> DepChoices] /\ fails \in SUBSET Names
+NoInj == [on |-> FALSE, fs |-> <<>>, i |-> 0, got |-> <<>>]
+InjShapes == IF InjLen = 0 THEN {} ELSE { f \in [1..InjLen -> Edge] : f[1].t = CHOOSE n \in Names : TRUE }
+Init == /\ deps \in [Names -> DepChoices] /\ fails \in SUBSET Names /\ inj = NoInj
         /\ DI = {} /\ DF = {} /\ F = {} /\ inst = << >> /\ blocked = FALSE /\ callstack = <<>>
         /\ frames = <<>> /\ ret = "none" /\ calls = [n \in Names |-> 0] /\ ndefs = 0 /\ ngets = 0
         /\ top = "none" /\ out = <<"none","none","-">> /\ gSet = {} /\ gF = {} /\ gDI = {} /\ gDF = {}
         /\ built = [n \in Names |-> 0] /\ hist = <<>>
 Ext(f, n, v) == [x \in DOMAIN f \cup {n} |-> IF x = n THEN v ELSE f[x]]
 Quiet == frames = <<>> /\ ret = "none" /\ top = "none"
-Def(body) == /\ Quiet /\ ndefs < MaxDefs /\ ndefs' = ndefs + 1 /\ body
+Def(body) == /\ Quiet /\ ~inj.on /\ ndefs < MaxDefs /\ ndefs' = ndefs + 1 /\ body
              /\ EmitHist(hist')
-             /\ UNCHANGED <<deps, fails, blocked, callstack, frames, ret, calls, ngets, top, out, built>>
+             /\ UNCHANGED <<deps, fails, inj, blocked, callstack, frames, ret, calls, ngets, top, out, built>>
 Same == UNCHANGED <<DI, DF, F, inst, gSet, gF, gDI, gDF>>
 H(call, n, r) == hist' = Append(hist, [call |-> call, n |-> n, res |-> r, tag |-> "-", calls |-> calls])
 Set(n) == Def(IF blocked \/ n \in DOMAIN inst \/ n \in F THEN Same /\ H("set", n, "err")
@@ -53,12 +63,16 @@ Folded == IF Variant = "prefix" THEN { n \in DI : n \notin DOMAIN inst }
           ELSE { n \in DI : n \notin DOMAIN inst /\ n \notin F }
 BlockInst == [x \in DOMAIN inst \cup Folded |-> IF x \in DOMAIN inst THEN inst[x] ELSE "def"]
 \* Enter(n): what Get(n) does on entry, given tables t_inst/t_F/t_DF
-GetBegin(n) == /\ Quiet /\ ngets < MaxGets /\ ngets' = ngets + 1 /\ top' = n /\ out' = <<"none","none","-">>
+StartGet(n) == /\ top' = n /\ out' = <<"none","none","-">>
                /\ blocked' = TRUE
                /\ IF blocked THEN UNCHANGED <<inst, F, DF>>
                   ELSE /\ inst' = BlockInst /\ F' = F \ Folded /\ DF' = DF \ Folded
                /\ frames' = <<[n |-> n, i |-> 0]>>      \* i = 0: not yet entered
                /\ UNCHANGED <<deps, fails, DI, callstack, ret, calls, ndefs, gSet, gF, gDI, gDF, built, hist>>
+GetBegin(n) == /\ Quiet /\ ~inj.on /\ ngets < MaxGets /\ ngets' = ngets + 1 /\ StartGet(n) /\ UNCHANGED inj
+\* InjectTo(struct with the fields fs): one top-level call, one Get per field
+InjectBegin(fs) == /\ Quiet /\ ~inj.on /\ ngets < MaxGets /\ ngets' = ngets + 1
+                   /\ inj' = [on |-> TRUE, fs |-> fs, i |-> 1, got |-> <<>>] /\ StartGet(fs[1].t)
 Top == frames[Len(frames)]
 Pop == SubSeq(frames, 1, Len(frames)-1)
 InStack(n) == \E k \in 1..Len(callstack) : callstack[k] = n
@@ -71,7 +85,7 @@ Enter == /\ frames # <<>> /\ ret = "none" /\ Top.i = 0
               THEN /\ ret' = "ok" /\ frames' = Pop /\ UNCHANGED <<callstack, calls>>
             ELSE /\ callstack' = Append(callstack, n) /\ calls' = [calls EXCEPT ![n] = @ + 1]
                  /\ frames' = [frames EXCEPT ![Len(frames)].i = 1] /\ ret' = "none"
-         /\ UNCHANGED <<deps, fails, DI, DF, F, inst, blocked, ndefs, ngets, top, out, gSet, gF, gDI, gDF, built, hist>>
+         /\ UNCHANGED <<deps, fails, inj, DI, DF, F, inst, blocked, ndefs, ngets, top, out, gSet, gF, gDI, gDF, built, hist>>
 \* factory body: request next dependency, or finish
 FactoryFail == /\ ret' = "err" /\ frames' = Pop
                /\ callstack' = IF Variant = "prefix" THEN callstack
@@ -87,26 +101,46 @@ Body == /\ frames # <<>> /\ ret = "none" /\ Top.i >= 1
                 /\ inst' = Ext(inst, n, IF n \in F THEN "fac" ELSE "dfac")
                 /\ F' = F \ {n} /\ DF' = DF \ {n}
         /\ built' = IF Top.i > Len(deps[Top.n]) /\ Top.n \notin fails THEN [built EXCEPT ![Top.n] = @ + 1] ELSE built
-        /\ UNCHANGED <<deps, fails, DI, blocked, calls, ndefs, ngets, top, out, gSet, gF, gDI, gDF, hist>>
+        /\ UNCHANGED <<deps, fails, inj, DI, blocked, calls, ndefs, ngets, top, out, gSet, gF, gDI, gDF, hist>>
 \* a dependency's result arrives at the requesting factory
 Deliver == /\ frames # <<>> /\ ret # "none"
            /\ LET n == Top.n  e == deps[n][Top.i] IN
               IF ret = "ok" \/ e.opt
                 THEN /\ frames' = [frames EXCEPT ![Len(frames)].i = @ + 1] /\ ret' = "none" /\ UNCHANGED <<callstack, inst, F, DF>>
                 ELSE FactoryFail
-           /\ UNCHANGED <<deps, fails, DI, blocked, calls, ndefs, ngets, top, out, gSet, gF, gDI, gDF, built, hist>>
-GetEnd == /\ frames = <<>> /\ ret # "none" /\ out' = <<top, ret, IF ret = "ok" THEN inst[top] ELSE "-">>
+           /\ UNCHANGED <<deps, fails, inj, DI, blocked, calls, ndefs, ngets, top, out, gSet, gF, gDI, gDF, built, hist>>
+GetEnd == /\ frames = <<>> /\ ret # "none" /\ ~inj.on /\ out' = <<top, ret, IF ret = "ok" THEN inst[top] ELSE "-">>
           /\ ret' = "none" /\ top' = "none"
           /\ hist' = Append(hist, [call |-> "get", n |-> top, res |-> ret, tag |-> IF ret = "ok" THEN inst[top] ELSE "-", calls |-> calls])
           /\ EmitHist(hist')
-          /\ UNCHANGED <<deps, fails, DI, DF, F, inst, blocked, callstack, frames, calls, ndefs, ngets, gSet, gF, gDI, gDF, built>>
+          /\ UNCHANGED <<deps, fails, inj, DI, DF, F, inst, blocked, callstack, frames, calls, ndefs, ngets, gSet, gF, gDI, gDF, built>>
+\* the Get of one field of a struct injection has returned
+InjFieldEnd ==
+  /\ frames = <<>> /\ ret # "none" /\ inj.on
+  /\ LET f == inj.fs[inj.i]
+         g == Append(inj.got, [res |-> ret, tag |-> IF ret = "ok" THEN inst[top] ELSE "-"])
+         abort == ret = "err" /\ ~f.opt
+         last == inj.i = Len(inj.fs)
+         fin(r) == /\ hist' = Append(hist, [call |-> "inject", n |-> "-", res |-> r, tag |-> "-", calls |-> calls, fields |-> inj.fs, got |-> g])
+                   /\ inj' = NoInj /\ top' = "none" /\ UNCHANGED <<frames, blocked, inst, F, DF>>
+     IN /\ out' = <<top, ret, IF ret = "ok" THEN inst[top] ELSE "-">> /\ ret' = "none"
+        /\ IF abort THEN fin("err") /\ EmitHist(hist')
+           ELSE IF last THEN fin("ok") /\ EmitHist(hist')       \* then the extra injectors
+           ELSE /\ inj' = [inj EXCEPT !.i = @ + 1, !.got = g] /\ UNCHANGED hist
+                /\ top' = inj.fs[inj.i + 1].t /\ frames' = <<[n |-> inj.fs[inj.i + 1].t, i |-> 0]>> /\ UNCHANGED <<blocked, inst, F, DF>>
+  /\ UNCHANGED <<deps, fails, DI, callstack, calls, ndefs, ngets, gSet, gF, gDI, gDF, built>>
 Next == \/ \E n \in Names : Set(n) \/ SetDefault(n) \/ AddFactory(n) \/ AddDefaultFactory(n) \/ GetBegin(n)
-        \/ Enter \/ Body \/ Deliver \/ GetEnd
+        \/ (\E fs \in InjShapes : InjectBegin(fs))
+        \/ Enter \/ Body \/ Deliver \/ GetEnd \/ InjFieldEnd
 Spec == Init /\ [][Next]_vars
 \* ---- properties
 StackEmptyWhenQuiet == Quiet => callstack = <<>>
+
 Expected(n) == IF n \in gSet \/ n \in gF THEN {"set","fac"} ELSE IF n \in gDI \/ n \in gDF THEN {"def","dfac"} ELSE {}
 Precedence == (out[2] = "ok") => out[3] \in Expected(out[1])
+\* struct injection: every field that was set holds an instance of the origin a direct Get yields
+InjectConsistent == \A k \in 1..Len(hist) : hist[k].call = "inject" =>
+      \A j \in 1..Len(hist[k].got) : hist[k].got[j].res = "ok" => hist[k].got[j].tag \in Expected(hist[k].fields[j].t)
 NoRecursion == Len(frames) <= Cardinality(Names) + 1
 \* a factory that has produced an instance never runs again; it runs at all only beneath a Get (calls counts entries)
 OnceBuilt == \A n \in Names : built[n] <= 1 /\ (n \in DOMAIN inst /\ inst[n] \in {"fac", "dfac"} => built[n] = 1)
